@@ -19,8 +19,16 @@ MANIFEST = {
             "front of its LF has no end, as for strchr); a header line starting with its separator, which libcoap took for the "
             "end of the header block, is refused since fix 55210fa (ws_blank_led_line_refused). coap_ws_close's draining loop "
             "(model closeDrain, tied by the wsclose lines): ws_close_drain_bounded (at most 5 coap_ws_read calls from every reader "
-            "state for every pending byte string), ws_close_drain_idle, ws_close_drain_recv, ws_read_data_fits (the data part of "
-            "coap_ws_read never hands back more than the caller's buffer holds, any state, any buffer size). Ten defects found on the way are "
+            "state for every pending byte string), ws_close_drain_idle, ws_close_drain_recv, ws_read_data_fits; round 3: ws_read_fits "
+            "(header and data part of coap_ws_read never hand back more than the caller's buffer holds: every reader state, every "
+            "buffer size, every pending byte string), ws_read_keeps_ok / ws_read_data_dest_in_bounds (hdr_ofs <= 14 and data_ofs <= "
+            "data_size are kept, so neither unsigned difference wraps and the read destination ends inside the buffer), "
+            "ws_read_next_frame_terminates (the goto next_frame loop of one call), ws_close_drain_fits / ws_close_drain_in_bounds "
+            "(every coap_ws_read call of the drain stays inside buf[100] and rd_header[14]), ws_close_terminates (at most 5 rounds, "
+            "every call terminating: coap_ws_close neither aborts nor loops for ever on any input), and what the drain does when it "
+            "cannot see the peer's Close frame: ws_close_drain_socket_empty / ws_close_drain_close_unseen (frames in the same header "
+            "read as the Close frame: the loop only waits), ws_close_drain_oversize_stuck (after 1009: five calls returning -1, nothing "
+            "read), ws_close_drain_refused_stuck (after 1002/1003: the same header is refused again). Ten defects found on the way are "
             "fixed in /repo (1 TCP, 9 WebSocket).",
     "note": "Trusted: Lean kernel (+ propext, Classical.choice, Quot.sound), harness/stream.c (chunk feeder replacing the socket layer, "
             "dispatch hook 2de516c), generators, the hand transcriptions M / M_ws (checked against the compiled code on the cases run "
@@ -37,7 +45,11 @@ REQUIRED_THEOREMS = ["reader_eq_spec", "reader_segmentation_invariant", "reader_
                      "ws_reader_eq_spec", "ws_reader_segmentation_invariant", "ws_reader_cut_invariant",
                      "ws_no_message_stuck", "ws_blank_led_line_refused",
                      "ws_close_drain_bounded", "ws_close_drain_idle", "ws_close_drain_recv", "ws_read_data_fits",
-                     "ws_reader_no_oob", "ws_reader_final_state"]
+                     "ws_reader_no_oob", "ws_reader_final_state",
+                     "ws_read_fits", "ws_read_keeps_ok", "ws_read_data_dest_in_bounds", "ws_read_next_frame_terminates",
+                     "ws_close_drain_fits", "ws_close_drain_in_bounds", "ws_close_terminates",
+                     "ws_close_drain_socket_empty", "ws_close_drain_close_unseen", "ws_close_drain_oversize_stuck",
+                     "ws_close_drain_refused_stuck"]
 RULE = ("(byte stream, segmentation) pairs replayed into the real coap_read_session of a TCP / WebSocket session whose lowest "
         "layer is a chunk feeder: streams = 1-6 encoded messages (all four TCP length forms, tokens 0..extended, a share of "
         "field-mutated frames, oversize declared lengths, small configured maxima; WS: handshake + masked/unmasked frames with "
